@@ -145,8 +145,9 @@ theorem pushDefaultK_within : ∀ (b : B) (k : Nat), Within (positions b) (pushD
   | .union p (.cons c m rest) types offs cur, k => by
     unfold pushDefaultK
     refine within_ann (self_mem_positions _) ?_
-    refine Within.bind (Within.mono ?_ (pushDefaultK_within c k)) fun _ _ => Within.of_ok _
-    intro q hq; simp only [positions, positionsL, List.mem_cons, List.mem_append]; exact .inr (.inl hq)
+    refine Within.ite _ (NoCtx.within _) ?_
+    refine Within.bind (Within.mono ?_ (pushDefaultKAt_within (.cons c m rest) _ k)) fun _ _ => Within.of_ok _
+    simp only [positions]; exact tail_sub'
 theorem pushDefaultKAll_within : ∀ (fs : BL) (k : Nat), Within (positionsL fs) (pushDefaultKAll fs k)
   | .nil, k => by unfold pushDefaultKAll; exact Within.of_ok _
   | .cons b m rest, k => by
@@ -155,6 +156,16 @@ theorem pushDefaultKAll_within : ∀ (fs : BL) (k : Nat), Within (positionsL fs)
       Within.bind (Within.mono ?_ (pushDefaultKAll_within rest k)) fun _ _ => Within.of_ok _
     · intro q hq; simp only [positionsL, List.mem_append]; exact .inl hq
     · intro q hq; simp only [positionsL, List.mem_append]; exact .inr hq
+theorem pushDefaultKAt_within : ∀ (fs : BL) (j k : Nat), Within (positionsL fs) (pushDefaultKAt fs j k)
+  | .nil, _, _ => by unfold pushDefaultKAt; exact Within.of_ok _
+  | .cons b m rest, 0, k => by
+    unfold pushDefaultKAt
+    refine Within.bind (Within.mono ?_ (pushDefaultK_within b k)) fun _ _ => Within.of_ok _
+    intro q hq; simp only [positionsL, List.mem_append]; exact .inl hq
+  | .cons b m rest, j + 1, k => by
+    unfold pushDefaultKAt
+    refine Within.bind (Within.mono ?_ (pushDefaultKAt_within rest j k)) fun _ _ => Within.of_ok _
+    intro q hq; simp only [positionsL, List.mem_append]; exact .inr hq
 end
 
 theorem pushNone_within : ∀ (b : B), Within (positions b) (pushNone b)
@@ -174,8 +185,8 @@ theorem pushNone_within : ∀ (b : B), Within (positions b) (pushNone b)
     simp only [positions]; exact tail_sub'
   | .dictionary p idx vals index => by
     unfold pushNone
-    refine within_ann (self_mem_positions _) (Within.bind (within_ann (self_mem_positions _)
-      (Within.mono ?_ (pushNone_within idx))) fun _ _ => Within.of_ok _)
+    refine within_ann (self_mem_positions _) (Within.ite _ (NoCtx.within _) (Within.bind (within_ann (self_mem_positions _)
+      (Within.mono ?_ (pushNone_within idx))) fun _ _ => Within.of_ok _))
     intro q hq; simp only [positions, List.mem_cons, List.mem_append]; exact .inr (.inl hq)
 
 /-! ### struct rows -/
